@@ -38,6 +38,7 @@ type Contract struct {
 	PanicsIf   *Clause
 	Trusted    bool // contract assumed, body not verified
 	Pure       bool
+	NonDet     bool // pure (no side effects) but not a function of its arguments
 	Spec       bool // ghost spec function: inlined/unfolded at calls
 	Lemma      bool
 	Fuel       int
@@ -196,6 +197,8 @@ func ParseSpecFile(path string, pkgName string) (*SpecFile, error) {
 			cur.Trusted = true
 		case "pure":
 			cur.Pure = true
+		case "nondet":
+			cur.NonDet = true
 		case "spec":
 			cur.Spec = true
 			cur.Pure = true
